@@ -746,7 +746,9 @@ impl<'a, W: Write> YamlSerializer<'a, W> {
             } else {
                 self.write_single_quoted(s)
             }
-        } else if is_plain_value_safe(s, self.yaml_12, self.in_flow > 0) {
+        } else if is_plain_value_safe(s, self.yaml_12, self.in_flow > 0)
+            && !crate::ser_quoting::has_unsafe_plain_end(s)
+        {
             self.out.write_str(s)?;
             Ok(())
         } else {
